@@ -178,7 +178,7 @@ PROPS["C02"] = {
 JSON_STATE_TB = COMMON_TB + ["Json/StreamModel.v: hand-written models of Decoder.readValue (buffer/refill/offset discipline) and Tokenizer.Next (delimiter state machine, scope stack) over the machine-translated scanners; tied by correspondence"]
 PROPS["C11"] = {
     "harness": "c11",
-    "models": ["Json/StreamModel.v (read_value/decode_all)", "Generated/JsonParseGen.v"],
+    "models": ["Json/StreamModel.v (read_value/decode_all)", "Json/StateSpec.v (frame)", "Generated/JsonParseGen.v"],
     "rule": "value streams (short: every failure offset 0..64 x 8 delivery modes; tokens straddling the 4096/32768/65536 read boundaries at deltas -3..3; long streams with values larger than the read quantum and the initial buffer; streams ending inside a value / with a syntax error) "
             "x reader scripts {single read, 1 byte, zero-length reads, pseudo-random chunks 1..K for K in 3,7,100,5000, data returned together with the terminal error} x terminal {io.EOF, reader error at offset f}; "
             "observable: compacted values in order + final class (eof/ueof/readerr/syntax) with InputOffset monotonicity, Buffered()+unread == unconsumed and error stickiness checked inline; oracle: encoding/json.Decoder on the same bytes in one read "
@@ -197,6 +197,11 @@ PROPS["C17"] = {
     "assumptions": [],
 }
 
+PROPS["C11"]["claim"] = {
+    "text": "Theorems (Properties/C11.v) on the Decoder model: for EVERY reader script (any chunking, zero-length reads, data with the terminal error) over EVERY byte stream the decoder returns exactly the grammar's value stream of the concatenated bytes, then io.EOF at a clean end and another error otherwise; "
+            "two scripts with the same bytes give the same values and terminal condition; a failing reader gives a prefix of the values then the reader's error; InputOffset never decreases. Buffered()/unread accounting, error stickiness and Parse's remainder are decided by correspondence (inline checks and encoding/json as oracle).",
+    "note": "Trusted: Coq kernel; the hand-written Decoder model tied by correspondence on every run (model = implementation on streams up to 300 bytes under 8 delivery modes and every failure offset; longer streams are compared with encoding/json only); the regenerated scanner; extraction+driver; harness. Streams are bounded by 2^30 bytes in the theorems (int arithmetic of the buffer growth).",
+}
 PROPS["C17"]["claim"] = {
     "text": "Theorems (Properties/C17.v) on the tokenizer model: for EVERY valid document the tokenizer yields exactly the grammar-derived delimiters and scalars in order with Depth/Index/IsKey of every scalar and opening delimiter and no error; the token values concatenate to the compacted document; "
             "for EVERY byte string it terminates within len+1 calls of Next with every Value the sub-slice ending Remaining bytes before the end; Next after an error returns false and changes nothing. Reset/pooled-stack reuse and Kind/String/Int/Uint/Float/Bool are decided by correspondence (reused vs fresh tokenizer, accessor values vs encoding/json's token stream).",
